@@ -52,6 +52,12 @@ m("C02", "data/roll.py", "i.store.add_key(state_w, (i.key[0]*density+offset, i.k
 m("C02", "data/roll.py", "                        index = i.key[0] * density + offset\n                        i.store.set_state(state_w, (index, i.key), n)", "                        index = i.key[0] + offset\n                        i.store.set_state(state_w, (index, i.key), n)", "fire", ["ST-3", "ST-6"])
 m("C02", "operators/scan.py", "                    i.store.add_key(state, i.key)\n                    observer.on_next(i)", "                    if seed is not None:\n                        i.store.add_key(state, i.key)\n                    observer.on_next(i)", "fire", ["ST-2"])
 m("C02", "operators/tee_map.py", "                        # a lifetime ended by an error leaves values behind\n                        base_index = x.key[0] * n\n                        for index in range(n):\n                            queue[base_index+index] = None\n                            has_next[base_index+index] = False\n                    observer.on_next(x)", "                    observer.on_next(x)", "fire", ["ST-5"], "re-introduces the repaired defect 4dc75fc: the join slots of a key are cleared at completion only, a lifetime ended by a mux error leaks into the next")
+m("C02", "operators/tee_map.py", "                        # a lifetime ended by an error leaves values behind\n                        base_index = x.key[0] * n\n                        for index in range(n):\n                            queue[base_index+index] = None\n                            has_next[base_index+index] = False\n", "                        base_index = x.key[0] * n\n                        queue[base_index:base_index+n] = [None] * n\n                        has_next[base_index:base_index+n] = array('B', [False] * n)\n", "silent", [], "round r: the key's slots cleared by two slice assignments")
+m("C02", "operators/tee_map.py", "                        # a lifetime ended by an error leaves values behind\n                        base_index = x.key[0] * n\n                        for index in range(n):\n                            queue[base_index+index] = None\n                            has_next[base_index+index] = False\n", "                        base_index = x.key[0] * n\n                        queue[base_index:base_index+n-1] = [None] * (n-1)\n                        has_next[base_index:base_index+n] = array('B', [False] * n)\n", "fire", ["ST-5"], "round r: the slice leaves the last branch's slot out")
+m("C02", "operators/tee_map.py", "                        # a lifetime ended by an error leaves values behind\n                        base_index = x.key[0] * n\n                        for index in range(n):\n                            queue[base_index+index] = None\n                            has_next[base_index+index] = False\n                    observer.on_next(x)\n                return\n\n            elif isinstance(x, rs.OnCompletedMux):", "                    observer.on_next(x)\n                return\n\n            elif isinstance(x, rs.OnErrorMux):\n                if zip is True or combine is True:\n                    base_index = x.key[0] * n\n                    for index in range(n):\n                        queue[base_index+index] = None\n                        has_next[base_index+index] = False\n                observer.on_next(x)\n                return\n\n            elif isinstance(x, rs.OnCompletedMux):", "silent", [], "round r: the slots cleared when the key completes and when it fails, not when it is created")
+m("C19", "io/file.py", "                    f = open_obj(file, mode, encoding=encoding)", "                    kwargs = dict(mode=mode, encoding=encoding)\n                    f = open_obj(file, **kwargs)", "silent", [], "round r: the opener's arguments in a dict(...) that always carries mode and encoding")
+m("C19", "io/file.py", "                    f = open_obj(file, mode, encoding=encoding)", "                    f = open_obj(file, mode)", "fire", ["FH-1"], "round r: the opener is not given the encoding keyword")
+m("C19", "io/file.py", "                    with open_obj(file, mode, encoding=encoding) as f:", "                    with open_obj(file, mode) as f:", "fire", ["FR-3"], "round r: the opener of file.read is not given the encoding keyword")
 m("C02", "operators/tee_map.py", "                            queue[base_index+index] = None\n                            has_next[base_index+index] = False\n                return", "                            queue[base_index+index] = None\n                            has_next[index] = False\n                return", "fire", ["ST-5"], "a reset that lands in the slots of key 0 (seeded change C02d, still a defect after 4dc75fc)")
 m("C02", "operators/tee_map.py", "                        for index in range(n):\n                            queue[base_index+index] = None\n                            has_next[base_index+index] = False\n                return", "                        queue[base_index+i] = None\n                        has_next[base_index+i] = False\n                return", "silent", [], "the defect repaired first (completion cleared one slot only) is harmless since 4dc75fc: the slots are cleared again when the key index is created")
 m("C02", "operators/last.py", "            state = None\n\n            def on_next(i):\n                nonlocal state\n\n                if type(i) is rs.OnNextMux:\n                    i.store.set_state(state, i.key, i.item)", "            state = None\n            last_item = [None]\n\n            def on_next(i):\n                nonlocal state\n\n                if type(i) is rs.OnNextMux:\n                    last_item[0] = i.item\n                    i.store.set_state(state, i.key, i.item)", "fire", ["ST-1"])
